@@ -9,6 +9,7 @@
 #define MAXI 65536
 static void *addr[MAXI];          /* first address seen per index (shared between threads: CAS) */
 static int visited[MAXI]; static int nvis; static int vlist[4096];
+static long n_beyond;
 static long n_index_ok, n_range_err, n_grow, n_autogrow, n_newbins, n_addr_checks;
 
 static void pat(unsigned char *p, size_t es, uint64_t kase, int idx)
@@ -146,6 +147,12 @@ static void *mt_thread(void *arg)
 		case 2: idx = (int)(16 * vp_u(&r, 200)); break;   /* first element of a bin: forces bin allocation */
 		default: idx = (int)vp_u(&r, 20000); break;
 		}
+		if (vp_chance(&r, 1, 12)) {
+			/* beyond the documented maximum: refused, with or without auto-grow, and without disturbing the other threads */
+			static const int BEYOND[] = { 65536, 65537, 70000, 1 << 20, 0x7fffffff };
+			void *q = NULL; int rb = qb_array_index(m->a, BEYOND[vp_u(&r, 5)], &q); __atomic_add_fetch(&n_beyond, 1, __ATOMIC_RELAXED);
+			if (rb == 0) { vp_violation("array:index-beyond-maximum-accepted", "thread %d: index >= 65536 returned 0", m->t); *m->fail = 1; }
+		}
 		if (m->explicit_grow && vp_chance(&r, 1, 4)) { qb_array_grow(m->a, (size_t)idx + 1 + vp_u(&r, 64)); __atomic_add_fetch(&n_grow, 1, __ATOMIC_RELAXED); }
 		if (vp_chance(&r, 1, 5)) sched_yield();
 		void *p = NULL;
@@ -220,7 +227,7 @@ int main(int argc, char **argv)
 	int mt = strcmp(vp_arg("--mode", "seq"), "mt") == 0;
 	for (long k = vp.case_from; k < vp.case_to; k++) { vp_begin_case(k); if (mt) mt_case(k); else seq_case(k); }
 	vp_count("index_ok", n_index_ok); vp_count("range_errors_seen", n_range_err); vp_count("grow_calls", n_grow);
-	vp_count("autogrows", n_autogrow); vp_count("address_stability_checks", n_addr_checks);
+	vp_count("mt_indexes_beyond_the_maximum_refused", n_beyond); vp_count("autogrows", n_autogrow); vp_count("address_stability_checks", n_addr_checks);
 	vp_finish();
 	return 0;
 }
